@@ -28,8 +28,12 @@ Operations (JSON-able):
     ['bind', uid, pid]                       full task dict with 'pilot'
     ['pilot_final', pid, code, how, echo]    how: 'list' | 'single'
     ['pnotify', [[type, pid, code], ...]]
+    ['pnotify', [[type, pid, code, extras], ...]]   extras: further fields of the
+                                             pilot document (values may be None),
+                                             see PILOT_DOC_FIELDS
 '''
 
+import copy
 import threading as mt
 import collections
 
@@ -82,6 +86,35 @@ def tcode(name):
 
 def pcode(name):
     return PCODE.get(name, 99)
+
+
+# fields of a pilot document that the real update chain reads: Pilot._update
+# ('state', 'resources' and its 'rm_info', every key for the None filter and the
+# merge into Pilot._pilot_dict, from which the properties resource_details,
+# rest_url, log, stdout, stderr, resources are served), _update_pilot
+# ('lm_info', 'lm_detail').  Each comes absent, None or present.
+PILOT_DOC_FIELDS = {
+    'resources'       : [None, {}, {'cpu': 4, 'gpu': 0},
+                         {'cpu': 4, 'gpu': 1, 'rm_info': {'cores_per_node': 4, 'node_list': []}}],
+    'resource_details': [None, {'cores_per_node': 4}],
+    'pilot_sandbox'   : [None, 'file://localhost/tmp/pilot.sandbox/'],
+    'stdout'          : [None, '', 'pilot stdout'],
+    'stderr'          : [None, 'pilot stderr'],
+    'log'             : [None, 'pilot log'],
+    'logfile'         : [None, '/tmp/pilot.sandbox/agent_0.log'],
+    'rest_url'        : [None, 'http://localhost:1234/'],
+    'lm_info'         : [None, {'launcher': 'FORK'}],
+    'lm_detail'       : [None, 'fork'],
+    'description'     : [None, {'resource': 'local.localhost', 'runtime': 10}],
+}
+
+
+def doc_kind(v):
+    if v is None:
+        return 'None'
+    if isinstance(v, dict):
+        return 'dict(%s)' % '+'.join(sorted(v)) if v else 'dict()'
+    return 'str' if v else 'empty'
 
 
 class FakeSub(object):
@@ -329,16 +362,24 @@ class ClientRig(object):
             ev = {'ev': 'PilotFinal', 'pilot': pid, 'pst': code}
 
         elif kind == 'pnotify':
-            batch = [[ty, p, int(s)] for ty, p, s in op[1]]
+            batch = [[e[0], e[1], int(e[2])] for e in op[1]]
             dicts = list()
-            for ty, p, s in batch:
+            docs  = list()
+            for e in op[1]:
+                ty, p, s = e[0], e[1], int(e[2])
                 d = {'uid': p, 'state': PNAMES[s]}
                 if ty != 'none':
                     d['type'] = ty
+                extras = e[3] if len(e) > 3 and e[3] else {}
+                d.update(copy.deepcopy(extras))
+                docs.append(','.join('%s=%s' % (k, doc_kind(extras[k]))
+                                     for k in sorted(extras)) or 'plain')
                 dicts.append(d)
             raised, ret = self._call(self.pm._state_sub_cb, rpc.STATE_PUBSUB,
                                      {'cmd': 'update', 'arg': dicts})
-            ev = {'ev': 'PNotify', 'batch': batch}
+            # the monitor sees <<type, pid, state>>; the shape of the rest of
+            # the pilot document is kept as a label
+            ev = {'ev': 'PNotify', 'batch': batch, 'docs': docs}
 
         else:
             raise ValueError('unknown operation %s' % (op,))
